@@ -90,7 +90,11 @@ func tmplDecls() listTemplate {
 		Open:  func(l string) []string { return nil },
 		Close: func(string) []string { return nil },
 		Elem: func(id int) []string {
-			return []string{fmt.Sprintf("func e%d() {", id), "\tg()", "}"}
+			callee := 1 // every function calls e1, e1 calls e2: deleting or moving one leaves identifiers whose Obj.Decl points at it
+			if id%100 == 1 {
+				callee = 2
+			}
+			return []string{fmt.Sprintf("func e%d() {", id), fmt.Sprintf("\te%d()", callee), "}"}
 		}, Indent: "", BodyIndent: "\t", HangBefore: 1, Blank: true,
 		Lists: func(f *dst.File) (reflect.Value, reflect.Value) {
 			return reflect.ValueOf(&f.Decls).Elem(), reflect.Value{}
